@@ -10,6 +10,7 @@ import (
 	"encoding/json"
 	"fmt"
 	"io"
+	"math"
 	"os"
 	"os/exec"
 	"path/filepath"
@@ -30,6 +31,14 @@ type systemdLog struct {
 	Message string `json:"MESSAGE"`
 }
 
+// newScanner returns a line scanner without the default 64 KiB limit on the
+// length of a line, after which the scanner silently stops reading.
+func newScanner(r io.Reader) *bufio.Scanner {
+	scanner := bufio.NewScanner(r)
+	scanner.Buffer(make([]byte, 0, bufio.MaxScanTokenSize), math.MaxInt)
+	return scanner
+}
+
 // GetApparmorLogs return a list of cleaned apparmor logs from a file
 func GetApparmorLogs(file io.Reader, profile string) []string {
 	var logs []string
@@ -42,7 +51,7 @@ func GetApparmorLogs(file io.Reader, profile string) []string {
 		isAppArmorLog = regexp.MustCompile(exp)
 	}
 
-	scanner := bufio.NewScanner(file)
+	scanner := newScanner(file)
 	for scanner.Scan() {
 		line := scanner.Text()
 		if isAppArmorLog.MatchString(line) {
@@ -75,7 +84,7 @@ func GetJournalctlLogs(path string, since string, useFile bool) (io.Reader, erro
 		if err != nil {
 			return nil, err
 		}
-		scanner = bufio.NewScanner(file)
+		scanner = newScanner(file)
 	} else {
 		// journalctl -b -o json -g apparmor -t kernel -t audit -t dbus-daemon --output-fields=MESSAGE > systemd.log
 		args := []string{
@@ -94,7 +103,7 @@ func GetJournalctlLogs(path string, since string, useFile bool) (io.Reader, erro
 		if err := cmd.Run(); err != nil && stderr.Len() != 0 {
 			return nil, fmt.Errorf("journalctl: %s", stderr.String())
 		}
-		scanner = bufio.NewScanner(&stdout)
+		scanner = newScanner(&stdout)
 	}
 
 	var jctlRaw []string
